@@ -466,7 +466,9 @@ where
             let this = self.as_mut().project();
             (
                 this.flags.contains(Flags::DRAINING),
+                // with pipelined requests queued, `payload` belongs to the last of them
                 !is_upgrade
+                    && this.messages.is_empty()
                     && should_close_for_unread_payload(
                         this.payload.as_ref(),
                         *this.payload_drainable,
@@ -516,7 +518,9 @@ where
             let this = self.as_mut().project();
             (
                 this.flags.contains(Flags::DRAINING),
+                // with pipelined requests queued, `payload` belongs to the last of them
                 !is_upgrade
+                    && this.messages.is_empty()
                     && should_close_for_unread_payload(
                         this.payload.as_ref(),
                         *this.payload_drainable,
